@@ -15,4 +15,17 @@ macro "honest_tac_split" : tactic => `(tactic| (
   (repeat' (split at h)) <;> cases h <;>
   (rcases t with _ | ⟨t0, t⟩) <;> honest_simp <;> honest_close))
 
+
+set_option hygiene false in
+/-- `honest_simp` with additional rewrite rules. -/
+macro "honest_simp_with" "[" ls:Lean.Parser.Tactic.simpLemma,* "]" : tactic => `(tactic| (
+  simp [Holds, stackConstraints, overflowCs, systemCs, fieldCs, manipCs, u32Cs, ioCs, generalCs,
+    rowWith, Row.st, Row.hp, Row.is, Row.inR, Op.code, c, helpersOf, pad16, setStack, isRight,
+    noShift, leftShift, rightShift, leftShiftAny, rightShiftAny, topBinary, Row.overflow, bnot, isBinary,
+    Row.isLoopEnd, Row.isCallEnd, Row.isSyscallEnd, List.range, List.range.loop,
+    cast_fadd, cast_fmul, cast_fneg, cast_fsub, hs, H0ok, insertAt, $ls,*] at hh hb ⊢))
+
+/-- Canonical stack: every element is a canonical residue. -/
+def Canon (vm : Vm) : Prop := ∀ x ∈ vm.stack, x < P
+
 end Miden.C03
